@@ -6,6 +6,7 @@
 -/
 import RoModel.DriverCore
 import RoModel.Ops.Precision
+import RoModel.Spec.More
 namespace Ro.Driver.Drivers.Precision
 open Ro Ro.Driver
 
@@ -16,5 +17,16 @@ def run (c : Case) : String :=
   let f := if c.getD "op" "Floor" == "Ceil" then Ro.Precision.ceilN else Ro.Precision.floorN
   let ns := ms.map (fun m => toString (f m k places))
   s!"res {c.id} ns={if ns.isEmpty then "-" else ",".intercalate ns} term=C"
+
+/-- `kind=numtype` (go/harness/numtype.go): Average over narrow integer element types. The specification `Spec.average` (RoProps/C04:
+    the operator machine equals it for every script) divides the exact integer sum by the count; the harness generates lists whose
+    mean is integral, so `div` is integer division and the integer is compared. -/
+def runNumType (c : Case) : String :=
+  let vals := parseInts (c.getD "vals" "-")
+  if c.getD "op" "" != "Average" || vals.isEmpty then s!"res {c.id} unsupported" else
+  let out := Ro.Spec.average (fun (s : Int) (n : Nat) => s / (n : Int)) (0 : Int) (vals.map (fun v => (({} : Ctx), v))) (.complete {})
+  match out with
+  | [.next _ m, .complete _] => s!"res {c.id} out={m}"
+  | _ => s!"res {c.id} out=?"
 
 end Ro.Driver.Drivers.Precision
